@@ -535,6 +535,22 @@ def data_label_lookup(ctx):
                     'generator', f.file, f.line)
 
 
+def _integral_can_hold_rejects_nonfinite(repo):
+    f = repo.func('qbee.expr', 'Type.can_hold')
+    arms = 0
+    for n in ast.walk(f.node):
+        if isinstance(n, ast.If) and isinstance(n.test, ast.Compare) and \
+                any(isinstance(c, ast.Attribute) and
+                    c.attr in ('INTEGER', 'LONG')
+                    for c in ast.walk(n.test)):
+            r = n.body[0] if n.body else None
+            if isinstance(r, ast.Return) and \
+                    isinstance(r.value, ast.Compare) and \
+                    len(r.value.ops) == 2:
+                arms += 1
+    return arms >= 2
+
+
 def compile_time_partial_ops(ctx):
     repo = ctx.repo
     rule = 'C06.compile-time-partial-operation'
@@ -549,12 +565,32 @@ def compile_time_partial_ops(ctx):
                 c.args and isinstance(c.args[0], ast.Name):
             n += 1
             guarded = False
+            arg = c.args[0].id
+            under_integral = under_can_hold = False
+            prev = c
             for a in ancestors(c):
                 if isinstance(a, ast.Try):
                     guarded = True
                 if isinstance(a, ast.If) and ('isfinite' in unparse(a.test)
                                               or 'isinf' in unparse(a.test)):
                     guarded = True
+                if isinstance(a, ast.If) and any(prev is b for b in a.body):
+                    for t in ast.walk(a.test):
+                        if isinstance(t, ast.Attribute) and \
+                                t.attr == 'is_integral':
+                            under_integral = True
+                        if isinstance(t, ast.Call) and \
+                                isinstance(t.func, ast.Attribute) and \
+                                t.func.attr == 'can_hold' and t.args and \
+                                isinstance(t.args[0], ast.Name) and \
+                                t.args[0].id == arg:
+                            under_can_hold = True
+                prev = a
+            if under_integral and under_can_hold and \
+                    _integral_can_hold_rejects_nonfinite(repo):
+                # Type.can_hold of an integral type is a chained range
+                # comparison, which is False for inf and NaN
+                guarded = True
             construct = f'{f.file}:QvmCode.optimize:round(push-operand)'
             ctx.instance(rule, construct, sample={'guarded': guarded})
             if not guarded:
